@@ -162,6 +162,39 @@ func c15(args []string) {
 	}
 	key := func(i int, lv slog.Level) string { return fmt.Sprintf("%d/%s", i, lv) }
 
+	if len(args) > 1 && args[1] == "concurrent" {
+		// a fresh process whose very first use of the library is concurrent: 8 goroutines display frames (incl. many
+		// message types that no table knows) at the same time, so anything filled lazily on first use is hit in parallel
+		var unknown [][]byte
+		for _, t := range []int{1041, 1047, 1069, 1129, 1133, 1138, 1228, 1231, 1250, 1300, 2000, 2047, 2048, 3000, 3376, 4000, 4060, 4096 - 1 - 40} {
+			unknown = append(unknown, gen.Frame(rng, t, 4+rng.Intn(30), 0))
+		}
+		all := append(append([][]byte{}, unknown...), pool...)
+		canon := make([]c15Event, len(all))
+		var wg sync.WaitGroup
+		for g := 0; g < 8; g++ {
+			wg.Add(1)
+			go func(g int) {
+				defer wg.Done()
+				lv := levels[g%2]
+				h := handler.New(start, lv)
+				for k := g; k < len(all); k += 4 { // every frame is displayed by two goroutines
+					m := safeGet(h, all[k])
+					emit(observe(m, fmt.Sprintf("c%d/%s", k, lv), "concurrent-first-use"))
+				}
+			}(g)
+		}
+		wg.Wait()
+		_ = canon
+		// then sequentially: the text must be what the concurrent first use produced
+		for _, lv := range levels {
+			for k, f := range all {
+				h := handler.New(start, lv)
+				emit(observe(safeGet(h, f), fmt.Sprintf("c%d/%s", k, lv), "sequential-after-concurrent"))
+			}
+		}
+		return
+	}
 	if len(args) > 1 && args[1] == "reverse" {
 		// a fresh process that meets the frames in the opposite order: anything process-wide that is
 		// learnt from earlier frames (caches, memo tables) now learns from the other neighbour first
